@@ -183,9 +183,10 @@ def build(repo, w, constraint=None):
             raise Raised("RuntimeError(cost before parameters were installed)")
         return w.cost_of(w.installed)
 
-    def choice(n, p=None, **k):
+    def choice(a, size=None, replace=True, p=None, **k):
         w.choice_k += 1
-        return (w.choice_k * 2) % n
+        n_ = a if isinstance(a, int) else len(list(a))
+        return (w.choice_k * 2) % n_
 
     def rmvnorm(n=1, mean=None, sigma=None, **k):
         return NumArr(w.next_proposal())
